@@ -68,7 +68,7 @@ PROPS = {
                 pending=[]),
     'C07': dict(obligations=lambda: P('SqProps.C07') + P('SqProps.C07Den') + TIE_FN + TIE_CONST,
                 slices=['prog', 'ops', 'alias', 'session_cache'], monitors=[],
-                pending=['programs started with AST-supplied names (ast_names) are outside evalOp; for all others eval_call_iff_semantics proves: the machine halts with an outcome and world iff the compositional semantics prescribes them']),
+                pending=[]),
     'C08': dict(obligations=lambda: P('SqProps.C08') + P('SqProps.C08Rat') + T('SqTie.LexRules', 'lexrules_tie'),
                 slices=['num'], monitors=['c08'],
                 pending=['pow / round / quantize / the Decimal builtins against ℚ (+ - * / and the comparisons are: arithmetic_is_correctly_rounded, comparisons_are_rational_order in SqProps/C08Rat.lean)']),
